@@ -403,7 +403,7 @@ class Acc:
 
     def result(self):
         if self.states == 0 and not self.V:
-            return {'skipped': 'no admissible mode tuple in this batch', 'observed_only': self.observed}
+            return {'skipped': self.observed[0] if self.observed else 'empty batch'}
         return {'states': max(self.states, 1), 'transitions': self.transitions, 'checks': self.checks,
                 'nontrivial': self.nontrivial, 'key': self.keys or None, 'outcome': self.outcomes or ['-'],
                 'skipped': None, 'inconclusive': 0, 'observed_only': self.observed, 'violations': self.V}
